@@ -9,7 +9,7 @@ def gen_migrate_ss(rng, big=False):
     return schedgen.gen_migrate(rng, big, self_suspend=True)
 
 
-FAMS = [schedgen.gen_migrate, gen_migrate_ss, schedgen.gen_f6]
+FAMS = [schedgen.gen_migrate, gen_migrate_ss, schedgen.gen_mig_switch, schedgen.gen_f6]
 NAME_RE = r"^C13_"
 MANIFEST = {
     "text": "Theorems (Coq, every number of units/pools, every interleaving of the scheduler LTS whose labels are the ABT_VERIF hook "
